@@ -326,7 +326,10 @@ def sequence(job):
                 try:
                     done = apply_edit(domain, action, st)
                 except Exception as e:  # noqa
-                    results.append({"edit_raised": exc(e)})
+                    # not this property's subject (e.g. remove_condition after change_signature: KeyError from a set whose members
+                    # were renamed in place, proposed_fixes/D92): whatever the edit did, the schema is re-dumped and judged as it is now
+                    epochs.append(snapshot())
+                    results.append({"edit_raised": exc(e), "epoch": len(epochs) - 1})
                     continue
                 epochs.append(snapshot())            # always: the text is what the schema IS now, whatever the edit did
                 results.append({"done": done, "epoch": len(epochs) - 1})
